@@ -563,12 +563,38 @@ def gen_consts():
 GENERATORS = [gen_crc, gen_consts]
 
 
+def all_generators():
+    """Built-in generators plus every tools/gen/<name>.py module's GENERATORS list
+    (each generator is a function returning (filename, text) and raising
+    TranslationError when the source is outside the accepted subset)."""
+    import importlib
+    gens = list(GENERATORS)
+    gdir = os.path.join(os.path.dirname(os.path.abspath(__file__)), "gen")
+    if gdir not in sys.path:
+        sys.path.insert(0, os.path.dirname(gdir))
+    for fn in sorted(os.listdir(gdir)) if os.path.isdir(gdir) else []:
+        if fn.endswith(".py") and not fn.startswith("_"):
+            name = "gen." + fn[:-3]
+            try:
+                if name in sys.modules:
+                    mod = importlib.reload(sys.modules[name])
+                else:
+                    mod = importlib.import_module(name)
+                gens += list(mod.GENERATORS)
+            except Exception as e:   # a generator module that does not load is a failed translation
+                def bad(e=e, name=name):
+                    raise TranslationError("generator module %s failed to load: %r" % (name, e))
+                bad.__name__ = name
+                gens.append(bad)
+    return gens
+
+
 def generate(outdir, only=None):
     """Run all generators; write files only when content changes.
     Returns list of (filename, error-or-None)."""
     os.makedirs(outdir, exist_ok=True)
     results = []
-    for g in GENERATORS:
+    for g in all_generators():
         try:
             fname, text = g()
         except TranslationError as e:
